@@ -27,7 +27,7 @@ def judgeTdHash (input : Bytes) (resp : String) : Verdict :=
   | some raw =>
     match blobOfJson raw with
     | .ok b =>
-      let fuel := 2 * (jsizeMembers b.domain + jsizeMembers b.message) + 4
+      let fuel := 3 * (jsizeMembers b.domain + jsizeMembers b.message) + 4
       match Spec.Eip712.digests Prim.keccak256 b.types b.primaryType b.domain b.message fuel with
       | some (ds, mh, dg) =>
         if resp == s!"ok {hx ds} {hx mh} {hx dg}" then .holds
